@@ -91,17 +91,6 @@ _iov("C04", "Pending backpatches are never observable; filled ones unblock every
      "Correspondence + shadow-buffer oracle with placeholders.",
      " C03/C04 theorems cover single-iovec histories; clone / take / arena swap / foreign anchored slices are exercised by the "
      "correspondence run and the per-object shadow oracle only (the multi-object frame theorem is C20's).")
-_iov("C05", "Every slice handed out points into live memory", [], [], ["C05"], ["A", "S", "T", "L", "R"],
-     "Kernel-checked ownership invariant on the structural model (every exposed owned slice is guarded by an anchor holding its chunk; "
-     "derived liveness); correspondence of slice placement and live-chunk set with the real allocator through hook H1; containment oracle.",
-     " PARTIAL BY NATURE: memory safety of the compiled unsafe code is sampled (registry + debug poisoning), not proved.")
-_iov("C10", "Arena memory is reclaimed: no leak after drop, bounded footprint in streaming", [], [], ["C10"], ["L"],
-     "Kernel-checked: dropping every object leaves no holder (derived liveness); correspondence of the live-chunk set after every operation; "
-     "leak oracle on the process-wide counters at the end of every history.",
-     " PARTIAL BY NATURE: leaks below the model (Arc/Box internals) are only visible to the counters.")
-_iov("C20", "A cloned or taken OwningIovec is an independent snapshot", [], [], ["C20"], ["A", "R"],
-     "Kernel-checked frame theorems on the multi-object world model; correspondence over histories with clone/take and interleaved suffixes on both sides; "
-     "per-object shadow oracle checked on every object after every operation.")
 SPECS["C12"] = dict(
     title="MessageView is total on untrusted bytes and its accessors agree",
     lean_modules=["Woodpile.Props.C12"],
@@ -511,3 +500,57 @@ SPECS["C18"] = dict(
                   "hook H3 (verif_shim) reports every access of atomic_base_time.rs faithfully"],
     assumptions=["sequence counter does not wrap (fewer than 2^64 accepted updates)", "64-bit usize"],
 )
+
+_iov("C05", "Every slice handed out points into live memory",
+     ["Woodpile.Props.C05.slice_guarded",
+      "Woodpile.Props.C05.detached_anchored",
+      "Woodpile.Props.C05.cache_holds_chunk",
+      "Woodpile.Props.C05.reachable_has_caps",
+      "Woodpile.Props.C05.exposed_live",
+      "Woodpile.Props.C05.below_bump",
+      "Woodpile.Props.C05.no_overlap",
+      "Woodpile.Props.C05.released_only_when_unreachable"],
+     ["Woodpile.Props.C05"], ["C05"], ["A", "S", "T", "L", "R"],
+     "Kernel-checked invariants of the structural multi-object model over ALL histories of the iovec op vocabulary (World.step, cross-checked "
+     "against the driver at compile time): (G) every owned slice is guarded by an anchor at or after the one that counts it, (A) detached slices "
+     "carry their chunk's anchor, (C) caches hold their chunk, (B) one cache per chunk, every slice of every object below the bump pointer and inside "
+     "the chunk's allocation-time capacity, fresh allocations above everything readable (no_overlap); exposed_live / released_only_when_unreachable. "
+     "Correspondence of slice placement and live-chunk set with the real allocator through hook H1; containment oracle incl. scripted "
+     "anchored-slice ownership scenarios.",
+     " PARTIAL BY NATURE: memory safety of the compiled unsafe code is sampled (registry + debug poisoning), not proved. The anchored codec "
+     "input is modelled as the composite push(slice); push_anchor(anchor); the raw unsafe components() route is the caller's obligation.", codecw=True)
+_iov("C10", "Arena memory is reclaimed: no leak after drop, bounded footprint in streaming",
+     ["Woodpile.Props.C10.live_iff_held",
+      "Woodpile.Props.C10.drop_all_releases",
+      "Woodpile.Props.C10.dropAll_releases",
+      "Woodpile.Props.C10.consumed_anchors_released",
+      "Woodpile.Props.C10.front_anchor_counts",
+      "Woodpile.Props.C10.findHintSize_le",
+      "Woodpile.Props.C10.streaming_footprint",
+      "Woodpile.Props.C10.streaming_footprint_prod"],
+     ["Woodpile.Props.C10"], ["C10"], ["L"],
+     "Kernel-checked: dropping every object leaves no holder (derived liveness); anchors are released from the front as soon as their slices are "
+     "consumed; streaming footprint: for one iovec fed by push_copy/register_patch/backfill (<= P bytes per push, one pending placeholder, <= B bytes "
+     "behind it) and drained after every call, the live chunks are covered by at most 2B/m0+2 chunks of capacity <= S (production: 33 x 1 MiB for the "
+     "HCOBS encoder; findHintSize_le for the extracted tuning constants). Correspondence of the live-chunk set after every operation; leak oracle on "
+     "the process-wide counters at the end of every history.",
+     " PARTIAL BY NATURE: leaks below the model (Arc/Box internals) are only visible to the counters. The footprint constant is not tight "
+     "(every chunk is charged the minimum capacity); foreign AnchoredSlices / borrowed pushes are excluded from the streaming pattern.", codecw=True)
+_iov("C20", "A cloned or taken OwningIovec is an independent snapshot",
+     ["Woodpile.Props.C20.clone_copies",
+      "Woodpile.Props.C20.take_moves_all",
+      "Woodpile.Props.C20.take_keeps_backfill",
+      "Woodpile.Props.C20.frame_struct",
+      "Woodpile.Props.C20.frame_valid",
+      "Woodpile.Props.C20.frame_heap",
+      "Woodpile.Props.C20.clone_independent_nonfill",
+      "Woodpile.Props.C20.pending_private",
+      "Woodpile.Props.C20.creach_has_history",
+      "Woodpile.Props.C20.clone_independent"],
+     ["Woodpile.Props.C20"], ["C20"], ["A", "R"],
+     "Kernel-checked on the multi-object world model: clone_copies, take_moves_all (+ tokens still backfill the taken value), frame_struct / "
+     "frame_valid for every op, frame_heap (every heap write lands above every existing slice of its chunk, or in a pending range of the backfilled "
+     "iovec), pending_private, clone_independent for every op. Correspondence over histories with clone/take and interleaved suffixes "
+     "on both sides; per-object shadow oracle checked on every object after every operation.",
+     " clone_independent is proved at full strength (incl. backfill) for histories that clone only iovecs with no placeholder pending "
+     "(pending_private: no other object's slice covers a pending placeholder range; the premise is shown necessary by a model counter-example).")
